@@ -1050,7 +1050,7 @@ class ComplexModelBase(ModelBase):
         return cls.__orig__()
 
     @classmethod
-    @memoize_id
+    @memoize
     def get_subclasses(cls):
         retval = []
         subca = cls.Attributes._subclasses
